@@ -25,7 +25,7 @@ try:
         rc1, out1 = demo()
         res['demo_patched_rc'] = rc1
         res['demo_patched_tail'] = out1[-200:]
-        t = subprocess.run(['/tmp/seed/check_tests.py', tree], capture_output=True, text=True)
+        t = subprocess.run(['/verif/tools/check_tests.py', tree], capture_output=True, text=True)
         res['tests_pass'] = t.returncode == 0
         res['tests_line'] = t.stdout.strip().splitlines()[0] if t.stdout.strip() else ''
         for c in checks:
